@@ -607,6 +607,10 @@ func runL4(args []string) {
 		process(&c)
 	} else {
 		for i := 0; i < *n; i++ {
+			if hangCount >= maxHangs {
+				rep.Notes = append(rep.Notes, fmt.Sprintf("stopped after %d of %d cases: %d operations hung", i, *n, hangCount))
+				break
+			}
 			process(genL4(r.Fork()))
 		}
 	}
